@@ -976,10 +976,11 @@ impl Transaction {
         if self
             .from
             .iter()
+            .filter(|slip| slip.amount > 0)
             .map(|slip| slip.utxoset_key)
-            .collect::<Vec<_>>()
+            .collect::<AHashSet<_>>()
             .len()
-            != self.from.len()
+            != self.from.iter().filter(|slip| slip.amount > 0).count()
         {
             error!("ERROR: transaction : {} has duplicate inputs", self);
             return false;
